@@ -313,11 +313,12 @@ class Theory:
         else:
             raise TypeError
 
-    def _check_proof_item(self, prf, seq, rpt, no_gaps, compute_only, check_level):
+    def _check_proof_item(self, prf, seq, pos, rpt, no_gaps, compute_only, check_level):
         """Check a single proof item.
 
         prf -- proof to be checked.
         seq -- proof item to be checked.
+        pos -- position of seq in prf (tuple of list indices on the way to it).
         rpt -- report for proof-checking. Modified by the function.
         no_gaps -- disable gaps.
         compute_only -- only executes rule if theorem is not present.
@@ -325,12 +326,11 @@ class Theory:
             with macro.level <= self.check_level.
         
         """
-        # The id of an item must be its position in the proof being checked:
+        # The id of an item must be the position at which it is being checked:
         # citations are resolved by position, while can_depend_on compares ids.
-        try:
-            if any(i < 0 for i in seq.id.id) or prf.find_item(seq.id) is not seq:
-                raise ProofStateException
-        except ProofStateException:
+        # (Comparing with the walked position also rejects a ProofItem object
+        # that occurs at a second place of the proof.)
+        if seq.id.id != pos:
             raise CheckProofException("id %s does not match position of item" % seq.id)
 
         if seq.rule == "":
@@ -352,8 +352,8 @@ class Theory:
             # In compute_only mode, skip when a theorem exists. However,
             # subproofs still need to be checked.
             if seq.rule == "subproof":
-                for s in seq.subproof.items:
-                    self._check_proof_item(prf, s, rpt, no_gaps, compute_only, check_level)
+                for i, s in enumerate(seq.subproof.items):
+                    self._check_proof_item(prf, s, pos + (i,), rpt, no_gaps, compute_only, check_level)
             return None
 
         if seq.rule == "theorem":
@@ -369,8 +369,8 @@ class Theory:
             nm, T = seq.args
             res_th = Thm.mk_VAR(Var(nm, T))
         elif seq.rule == "subproof":
-            for s in seq.subproof.items:
-                self._check_proof_item(prf, s, rpt, no_gaps, compute_only, check_level)
+            for i, s in enumerate(seq.subproof.items):
+                self._check_proof_item(prf, s, pos + (i,), rpt, no_gaps, compute_only, check_level)
             res_th = seq.subproof.items[-1].th
         else:
             # Otherwise, apply one of the proof methods. First, we
@@ -432,8 +432,8 @@ class Theory:
                     seq.subproof = macro.expand(seq.id, seq.args, list(zip(seq.prevs, prev_ths)))
                     if rpt is not None:
                         rpt.expand_macro(seq.rule)
-                    for s in seq.subproof.items:
-                        self._check_proof_item(prf, s, rpt, no_gaps, compute_only, check_level)
+                    for i, s in enumerate(seq.subproof.items):
+                        self._check_proof_item(prf, s, pos + (i,), rpt, no_gaps, compute_only, check_level)
                     res_th = seq.subproof.items[-1].th
                     seq.subproof = None
             else:
@@ -464,8 +464,8 @@ class Theory:
         
         """
         assert isinstance(prf, Proof), "check_proof"
-        for seq in prf.items:
-            self._check_proof_item(prf, seq, rpt, no_gaps, compute_only, check_level)
+        for i, seq in enumerate(prf.items):
+            self._check_proof_item(prf, seq, (i,), rpt, no_gaps, compute_only, check_level)
 
         return prf.items[-1].th
 
